@@ -1784,3 +1784,14 @@ fn extend_to_bits(v: &mut Vec<usize>, ty: &Type, bits: usize) {
 fn is_signed(ty: &Type) -> bool {
     matches!(ty, Type::Signed(_))
 }
+
+/// Verification hook (feature `verif_hooks`): `extend_to_bits` for a signed / unsigned operand.
+#[cfg(feature = "verif_hooks")]
+pub(crate) fn extend_to_bits_for_hooks(v: &mut Vec<usize>, signed: bool, bits: usize) {
+    let ty = if signed {
+        Type::Signed(crate::token::SignedNumType::I8)
+    } else {
+        Type::Unsigned(crate::token::UnsignedNumType::U8)
+    };
+    extend_to_bits(v, &ty, bits)
+}
